@@ -99,6 +99,15 @@ void apply_op(view_t<D>& cur, op_t const& o, any_view& out) {
 		else { put<D - 1>(out, norm(cur[a[0]])); }
 	} else if(n == "sliced")     { put<D>(out, norm(cur.sliced(a[0], a[1])));
 	} else if(n == "blocked")    { put<D>(out, norm(cur.blocked(a[0], a[1])));
+	} else if(n == "stenciled")  {
+		if(a.size() == 2) { put<D>(out, norm(cur.stenciled({a[0], a[1]}))); }
+		else if constexpr(D >= 2) { if(a.size() == 4) { put<D>(out, norm(cur.stenciled({a[0], a[1]}, {a[2], a[3]}))); } else { throw unsupported{"stenciled arity"}; } }
+		else { throw unsupported{"stenciled arity"}; }
+	} else if(n == "range")      { put<D>(out, norm(cur.range({a[0], a[1]})));
+	} else if(n == "front" || n == "back") {
+		if constexpr(D == 1) { out.template emplace<elem0>(elem0{n == "front" ? &cur.front() : &cur.back()}); }
+		else { if(n == "front") { put<D - 1>(out, norm(cur.front())); } else { put<D - 1>(out, norm(cur.back())); } }
+	} else if(n == "addr")       { auto p = &cur; put<D>(out, norm(*p));
 	} else if(n == "strided")    { put<D>(out, norm(cur.strided(a[0])));
 	} else if(n == "dropped")    { put<D>(out, norm(cur.dropped(a[0])));
 	} else if(n == "taked")      { put<D>(out, norm(cur.taked(a[0])));
